@@ -250,6 +250,9 @@ impl<'a> Gen<'a> {
 
     fn script(&mut self) {
         let nv = self.vs.len();
+        // VERIF_X_ALLINIT=1: no field is ever read before it was written (for runs under Miri, which rejects the typed read of
+        // an uninitialised plain-old-data field that `Drop` / `unpack` / conversions perform by design)
+        let allinit = std::env::var("VERIF_X_ALLINIT").map(|v| v == "1").unwrap_or(false);
         // sizes of every record type
         let szs: Vec<String> = (0..nv).map(|v| format!("format!(\"{{}}/{{}}\", std::mem::size_of::<{t}>(), std::mem::align_of::<{t}>())", t = self.rty(v))).collect();
         let code = format!("{{ let s: Vec<String> = vec![{}]; flush(out, format!(\"sizes {{}}\", s.join(\",\"))); }}", szs.join(", "));
@@ -281,7 +284,7 @@ impl<'a> Gen<'a> {
             let mut cur = r;
             let mut k = v;
             while k + 1 < nv && self.rng.chance(3, 4) {
-                let form = *self.rng.pick(&["fs", "us", "fo", "uo"]);
+                let form = if allinit { *self.rng.pick(&["fs", "fo"]) } else { *self.rng.pick(&["fs", "us", "fo", "uo"]) };
                 cur = self.conv(cur, form);
                 k += 1;
                 if self.rng.chance(1, 4) { let p = *self.rng.pick(&[Place::Boxed, Place::InVec, Place::Stack]); cur = self.place(cur, p); }
@@ -293,9 +296,9 @@ impl<'a> Gen<'a> {
             // uninit constructor: mandatory fields back, later writes of the others
             let mut u = self.new_rec(v, true);
             self.all_gets(&u);
-            for fi in 0..nf { if !u.init[fi] && self.rng.chance(2, 3) { self.set(&mut u, fi); self.get(&u, fi); } }
+            for fi in 0..nf { if !u.init[fi] && (allinit || self.rng.chance(2, 3)) { self.set(&mut u, fi); self.get(&u, fi); } }
             if v + 1 < nv && self.rng.chance(1, 2) {
-                let form = *self.rng.pick(&["fs", "us", "fo", "uo"]);
+                let form = if allinit { *self.rng.pick(&["fs", "fo"]) } else { *self.rng.pick(&["fs", "us", "fo", "uo"]) };
                 u = self.conv(u, form);
                 self.all_gets(&u);
             }
